@@ -18,7 +18,7 @@ CLAIMED = {
     technique='Coq proof (frame invariant and two-run non-interference simulation by induction over the fuelled interpreter) + per-run model-vs-implementation correspondence by vm_compute',
     ref='DESIGN.md section 5, C01'),
   'C02': dict(
-    text='PARTIAL. On the Linen reference semantics of C01, proved for all programs, states and inputs: the variables returned by init are what apply consumes - for every module program that '
+    text='On the Linen reference semantics of C01 (grammar limits in the note), proved for all programs, states and inputs: the variables returned by init are what apply consumes - for every module program that '
          'declares, sows and perturbs but never overwrites a variable, re-running it on the variables its first run left (any `mutable`, any starting variables, [] for init) with the same '
          'input and nothing mutable returns the same output, finds every parameter and variable, runs no initialiser and returns the variables unchanged (a two-run simulation: values '
          'read the second time are the values read or created the first time, because declarations, sow and perturb only extend the tree; refuted with a witness for programs that '
@@ -26,10 +26,10 @@ CLAIMED = {
          'parameter under an immutable params collection raises (ScopeParamNotFound / ScopeCollectionNotFound) and a wrongly shaped one raises ScopeParamShapeError, never a '
          're-initialisation; the k-th unnamed child of class K is named K_k under the parent path; a submodule applied on its own sub-tree computes what it computes inside its parent - running '
          'a module at scope path p on a tree V and at the root on the dicts V holds at p give the same output, and the variables the standalone run leaves at q are those the inner run leaves '
-         'at p ++ q (a simulation under a path-prefix relation, for any split of the path). The remaining sentence (eval_shape / jit / lazy_init give the same structure, shapes and dtypes) '
+         'at p ++ q (a simulation under a path-prefix relation, for any split of the path); shape-only initialisation agrees with concrete init - nothing a module program decides depends on the values arrays hold, only on their shapes: for inputs of the same shape and variable trees of the same structure and shapes, init / apply fail with the same error or leave outputs, variable trees, rng counters and traces of the same structure and shapes (a lock-step two-run simulation under a shape relation over every statement of the interpreter; a shape-only run is a run on an abstract array carrying exactly the shape). That eval_shape / jit / lazy_init of the real code ARE such runs, dtypes, '
          'and modules passed as attributes and shared between parents are decided per run by the correspondence (the executable model predicts each of these runs) and by '
          'implementation oracles.',
-    note='Trusted: Coq kernel, vm_compute, harness, jaxcompat. Not proved: shape-parametricity (eval_shape / lazy_init); RNG keys differ between the standalone and the inner run by design (they are a function of the scope path). A write below a leaf (a variable where a scope '
+    note='Trusted: Coq kernel, vm_compute, harness, jaxcompat. Idealised, not proved: that jax tracing (eval_shape / jit / lazy_init) evaluates the program on a value that carries exactly the shape (the shape-agreement theorem is about two concrete runs); dtypes are not in the model; RNG keys differ between the standalone and the inner run by design (they are a function of the scope path). A write below a leaf (a variable where a scope '
          'dict is expected) is an error in the model as in the code. Not in the program grammar: setup-style modules, bind/unbind, lists of submodules, share_scope. lazy_init is only '
          'compared for programs without input-dependent variable writes (documented LazyInitError). No axioms.',
     technique='Coq proof (two-run simulation over the fuelled interpreter, tree-extension invariant, step-level facts) + per-run model-vs-implementation correspondence by vm_compute + implementation oracles',
